@@ -6,9 +6,10 @@
    targets (Some o = the o-th existing workload, None = an unknown id; repeats
    allowed) whose engines behave as behs (read to EOF | read to EOF then fail |
    fail after k bytes | return success unread).  Both polymorphic in the bytes. *)
-From Coq Require Import List Permutation.
-From Verif Require Import Xfer.Chunks Xfer.ChunksProofs Xfer.Pipeline Xfer.PipelineProofs Xfer.Steps Xfer.StepsProofs Xfer.StepsBridge.
+From Coq Require Import List Permutation Bool.
+From Verif Require Import Xfer.Chunks Xfer.ChunksProofs Xfer.Pipeline Xfer.PipelineProofs Xfer.Steps Xfer.StepsProofs Xfer.StepsBridge Xfer.Direct Xfer.DirectProofs.
 Import ListNotations.
+Local Open Scope bool_scope.
 
 (* chunking round trip, any content (the empty file included), any positive chunk size:
    the chunks concatenate to the content, all but the last are full, there is at
@@ -99,6 +100,27 @@ Theorem C29_steps_match_dataflow : forall {A} (chunks : list (list A)) (ts : lis
     got A (tg A s i) = engine_reads (beh_of behs o) chunks.
 Proof. exact @transfer_matches_dataflow. Qed.
 Print Assumptions C29_steps_match_dataflow.
+
+(* Calcium.Send, the non-chunked path of the cluster API: the engine is handed the
+   whole content; with distinct ids there is exactly one result per (target, file);
+   an id listed twice is served and reported twice (refuted, known finding) *)
+Theorem C29_direct_delivery : forall {A} (content : list A),
+  direct_reads Drain content = content /\ direct_reads DrainErr content = content /\
+  forall k, direct_reads (GiveUp k) content = firstn k content.
+Proof. exact @direct_delivery. Qed.
+Print Assumptions C29_direct_delivery.
+
+Theorem C29_direct_partial : forall nfiles ids behs o f,
+  NoDup ids -> In (Some o) ids -> f < nfiles ->
+  length (filter (fun m => onat_eqb (d_target m) (Some o) && onat_eqb (d_file m) (Some f))
+                 (flat_map (messages_of nfiles behs) ids)) = 1.
+Proof. exact direct_one_result. Qed.
+Print Assumptions C29_direct_partial.
+
+Theorem C29_direct_duplicate_refuted :
+  snd (send_direct 1 [Some 0; Some 0] []) = [mkDMsg (Some 0) (Some 0) ENone; mkDMsg (Some 0) (Some 0) ENone].
+Proof. exact direct_duplicate_refuted. Qed.
+Print Assumptions C29_direct_duplicate_refuted.
 
 (* the unrepaired network: finished when every target existed and every engine
    read to EOF, but blocked for ever on a missing target or an aborting engine
